@@ -1631,7 +1631,10 @@ def _handle_replace_root_stage(in_collection, unused_database, options):
 
 def _handle_project_stage(in_collection, unused_database, options):
     filter_list = []
-    method = None
+    # The first field other than _id tells an inclusion from an exclusion: both may say _id: 1.
+    method = next(
+        ('include' if value else 'exclude' for field, value in options.items() if field != '_id'),
+        None)
     include_id = options.get('_id')
     # Compute new values for each field, except inclusion/exclusions that are
     # handled in one final step.
@@ -1643,7 +1646,7 @@ def _handle_project_stage(in_collection, unused_database, options):
             raise OperationFailure(
                 'Bad projection specification, cannot exclude fields '
                 "other than '_id' in an inclusion projection: %s" % options)
-        elif method == 'exclude' and value:
+        elif method == 'exclude' and value and (field != '_id' or value not in (1, True)):
             raise OperationFailure(
                 'Bad projection specification, cannot include fields '
                 'or add computed fields during an exclusion projection: %s' % options)
